@@ -34,6 +34,9 @@ def log(*a):
 # --------------------------------------------------------------------------
 # stage descriptions
 # --------------------------------------------------------------------------
+TSCALE = float(os.environ.get("VERIF_TIMEOUT_SCALE", "1"))
+
+
 def MC(module, consts, invariants=(), properties=(), spec=None, dev=(), expect_violation=False,
        workers=16, xmx="6g", timeout=900, label=None, extra_cfg=""):
     return dict(kind="MC", module=module, consts=consts, invariants=list(invariants),
@@ -219,7 +222,7 @@ def run_mc(ctx, st):
     cmd = ctx.tlc_cmd(st["module"], name, st["workers"], st["xmx"])
     t0 = time.time()
     try:
-        r = subprocess.run(cmd, cwd=ctx.specdir, capture_output=True, text=True, timeout=st["timeout"])
+        r = subprocess.run(cmd, cwd=ctx.specdir, capture_output=True, text=True, timeout=st["timeout"] * TSCALE)
     except subprocess.TimeoutExpired:
         raise Infra("TLC timeout in %s" % st["label"])
     text = r.stdout + r.stderr
@@ -287,7 +290,7 @@ def run_gen(ctx, st):
                               stdin=tlc.stdout, stdout=subprocess.PIPE, stderr=lf, text=True, env=henv)
         tlc.stdout.close()
         try:
-            out, _ = rp.communicate(timeout=st["timeout"])
+            out, _ = rp.communicate(timeout=st["timeout"] * TSCALE)
         except subprocess.TimeoutExpired:
             tlc.kill(); rp.kill()
             raise Infra("timeout in %s" % st["label"])
@@ -324,7 +327,7 @@ def run_go(ctx, st):
     cmd = [hb, st["mode"], st["family"], "--seed", str(ctx.seed)] + st["args"]
     henv = dict(os.environ, VERIF_KNOWN=",".join(d for g in open_groups(ctx.findings, st["family"]) for d in g))
     try:
-        r = subprocess.run(cmd, capture_output=True, text=True, timeout=st["timeout"], cwd=ctx.dir, env=henv)
+        r = subprocess.run(cmd, capture_output=True, text=True, timeout=st["timeout"] * TSCALE, cwd=ctx.dir, env=henv)
     except subprocess.TimeoutExpired:
         raise Infra("timeout in %s" % st["label"])
     if r.returncode not in (0, 1):
@@ -347,7 +350,7 @@ def run_trace(ctx, st):
     tf = os.path.join(ctx.specdir, st["trace_file"])
     with open(tf, "w") as f:
         cmd = [hb, "drive", st["family"], "--seed", str(ctx.seed), "--n", str(st["n"])] + st["drive_args"]
-        r = subprocess.run(cmd, stdout=f, stderr=subprocess.PIPE, text=True, timeout=st["timeout"])
+        r = subprocess.run(cmd, stdout=f, stderr=subprocess.PIPE, text=True, timeout=st["timeout"] * TSCALE)
     if r.returncode != 0:
         raise Infra("%s: driver failed (%d): %s" % (st["label"], r.returncode, r.stderr[-2000:]))
     nev = sum(1 for _ in open(tf))
@@ -360,7 +363,7 @@ def run_trace(ctx, st):
     ctx.write_cfg(name, cfg_text(consts, spec="Spec", invariants=["Report"], postcondition="Accepted"))
     cmd = ctx.tlc_cmd(st["module"], name, 1, st["xmx"])
     try:
-        r = subprocess.run(cmd, cwd=ctx.specdir, capture_output=True, text=True, timeout=st["timeout"])
+        r = subprocess.run(cmd, cwd=ctx.specdir, capture_output=True, text=True, timeout=st["timeout"] * TSCALE)
     except subprocess.TimeoutExpired:
         raise Infra("TLC timeout in %s" % st["label"])
     text = r.stdout + r.stderr
